@@ -2,7 +2,7 @@
 # Evaluate seeded changes against the checks WITHOUT touching /repo: a scratch copy of /verif under /tmp/verif_eval
 # is pointed (VERIF_REPO + harness path dependency) at a scratch worktree /tmp/mut/eval of /repo, the patch is applied
 # there, and the quick checks are run.  Usage: tools/eval_seeded.sh <patch.diff> <label> [props...]
-# Result lines are appended to /tmp/mut/results.tsv:  label <TAB> property <TAB> rc <TAB> last verdict line
+# Result lines are appended to /tmp/mut/results2.tsv:  label <TAB> property <TAB> rc <TAB> last verdict line
 set -u
 PATCH=$1; LABEL=$2; shift 2
 PROPS=${@:-"C01 C02 C03 C04 C05 C06 C07 C08 C09 C10 C11 C12 C13 C14 C15 C16 C17 C18 C19 C20"}
@@ -19,10 +19,10 @@ fi
 rsync -a --exclude .git --exclude .scratch --exclude replays --exclude evidence --exclude target --exclude .lake --exclude Cargo.toml /verif/ $COPY/
 git -C $EVAL checkout -q -- . && git -C $EVAL clean -fdq -e target
 git -C $EVAL checkout -q --detach ${SEED_BASE:-3ea956c}
-if ! git -C $EVAL apply "$PATCH"; then echo -e "$LABEL\t-\tAPPLY-FAILED\t-" >> /tmp/mut/results.tsv; exit 1; fi
+if ! git -C $EVAL apply "$PATCH"; then echo -e "$LABEL\t-\tAPPLY-FAILED\t-" >> /tmp/mut/results2.tsv; exit 1; fi
 for p in $PROPS; do
   out=$(cd $COPY && VERIF_REPO=$EVAL timeout 1800 ./check $p 2>&1 | tail -n 3 | tr '\n' ' ' | cut -c1-400)
   rc=$(echo "$out" | grep -c VIOLATION)
-  echo -e "$LABEL\t$p\t$rc\t$out" >> /tmp/mut/results.tsv
+  echo -e "$LABEL\t$p\t$rc\t$out" >> /tmp/mut/results2.tsv
 done
 git -C $EVAL checkout -q -- .
